@@ -132,9 +132,10 @@ struct Runner {
     return s; }
   // KNOWN-defect regimes, decided from the back end, the ellipsoid and the polygon's edges only (fixed order).  Inside a regime every
   // numerical monitor (oracle:/law:) reports under the regime key with the monitor's own key in detail.monitor.
+  double test_extra_S = 0;
   bool tr_rheq = false, tr_preq = false;     // the edge(s) being evaluated by the current operation carry the signature
   std::string regime() const {
-    if (env.be == B_RH_EXACT && env.f < 0 && (M.nrheq || tr_rheq)) return "regime:C08/rhumb-exact/prolate-ellipsoid-edge-within-1e-8deg-of-equator";
+    if (env.be == B_RH_EXACT && env.f < 0 && (M.nrheq || tr_rheq)) return "regime:C08/rhumb-exact/prolate-ellipsoid-edge-near-equator-same-side";
     if ((env.be == B_EXACT || env.be == B_DELEG) && env.f < -0.2 && (M.npreq || tr_preq)) return "regime:C08/geod-exact/strongly-prolate-ellipsoid-inverse-edge-within-1e-8deg-of-equator";
     return ""; }
   void viol(const std::string& key, const J& d) {
@@ -173,7 +174,7 @@ struct Runner {
     if (rh()) {   // keep rhumb courses off the poles (documented NaN otherwise): shrink the distance
       bool crossed = true; int guard = 0;
       while (guard++ < 60) { rhumb_edge_direct(env, c, A, azi, s, nullptr, nullptr, &crossed); if (!crossed) break; s *= 0.5; if (std::fabs(A.lat) == 90) { s = 0; } }
-      if (crossed) s = 0;
+      if (crossed) { c.event("skipped: rhumb AddEdge from a vertex within 1e-7 deg (rectifying latitude) of a pole (documented NaN longitude; C09)"); return; }
     }
     P->AddEdge(azi, s); twin->AddEdge(azi, s);
     RV B; P->CurrentPoint(B.lat, B.lon);
@@ -316,14 +317,17 @@ struct Runner {
   void test_edge(double azi, double sd, bool r, bool s) {
     tr_rheq = tr_preq = false; ++nops; c.event("ops: TestEdge"); h = vh::hmix(vh::hmix(h, azi), sd) ^ 0x33;
     if (rh() && !M.V.empty() && std::fabs(M.V.back().lat) == 90) { c.event("skipped: rhumb TestEdge from a pole vertex"); return; }
-    if (rh() && !M.V.empty()) { bool crossed = true; int g = 0; while (g++ < 60) { rhumb_edge_direct(env, c, M.V.back(), azi, sd, nullptr, nullptr, &crossed); if (!crossed) break; sd *= 0.5; } if (crossed) sd = 0; }
+    if (rh() && !M.V.empty()) { bool crossed = true; int g = 0; while (g++ < 60) { rhumb_edge_direct(env, c, M.V.back(), azi, sd, nullptr, nullptr, &crossed); if (!crossed) break; sd *= 0.5; } if (crossed) { c.event("skipped: rhumb TestEdge from a vertex within 1e-7 deg of a pole"); return; } }
     double per = vh::sentinel(5), A = vh::sentinel(6); unsigned num = P->TestEdge(azi, sd, r, s, per, A);
     if (M.V.empty()) {   // no starting point: the call cannot add anything; it returns 0
       if (num != 0) viol(k("history", "testedge-on-empty-object-count"), wit().i("got", num));
       c.event("ops: TestEdge on empty object"); return;
     }
     std::unique_ptr<IPoly> Q(P->clone()); Q->AddEdge(azi, sd); double per2 = 0, A2 = 0; unsigned num2 = Q->Compute(r, s, per2, A2);
+    // |S12| of the tentative edge <= c2 |unrolled longitude change| (can be thousands of circuits next to a pole): part of sum |S12| in the round-off model
+    { double la, lo; Q->CurrentPoint(la, lo); test_extra_S = std::isfinite(lo) ? (double)env.E.c2 * std::fabs(lo - M.V.back().lon) * (M_PI / 180) : 0; }
     check_test("TestEdge", num, per, A, num2, per2, A2, J().f("azi", azi).f("s", sd).b("reverse", r).b("sign", s));
+    test_extra_S = 0;
     if (!polyline) { double B[4]; for (int i = 0; i < 4; ++i) { double p; B[i] = 0; P->TestEdge(azi, sd, i >> 1, i & 1, p, B[i]); } relations("TestEdge", B, 4); }
   }
   void check_test(const char* fn, unsigned num, double per, double A, unsigned num2, double per2, double A2, const J& in) {
@@ -340,7 +344,7 @@ struct Runner {
     if (!(ep <= Tp)) viol(k("history", (f + "-vs-add/perimeter").c_str()), wit().f("test", per).f("add", per2).obj("input", in));
     if (polyline) return;
     // ordinary round-off of the accumulated sums: K eps (sum |S12| + area0); sum |S12| from the reference when available, else bounded by n * area0 / 2
-    double sumS = M.judged ? (double)(env.E.c2 * (M.absI + 4 * ref::pi<LD>())) : 0.5 * env.area0_lib * (M.V.size() + 2);
+    double sumS = (M.judged ? (double)(env.E.c2 * (M.absI + 4 * ref::pi<LD>())) : 0.5 * env.area0_lib * (M.V.size() + 2)) + test_extra_S;
     double Ta = 4 * eps * (sumS + env.area0_lib), ea = (double)circ_dist(A, A2, env.area0_lib);
     c.obs("Test* vs add-then-Compute: area difference [eps * (sum|S12| + area0)] " + f, ea / (eps * (sumS + env.area0_lib)), wit().f("test", A).f("add", A2));
     if (!(ea <= Ta)) viol(k("history", (f + "-vs-add/area").c_str()), wit().f("test", A).f("add", A2).f("diff", ea).f("tol", Ta).obj("input", in));
